@@ -13,7 +13,8 @@ Local Open Scope string_scope.
                             import set, per-crate import set, CrateTypes); `oracle_ok h` = h rearranges its argument.
                             Every theorem holds for every such order.
    arrivals                 what the per-file parsers sent to the collector (parse_workspace = Ok arrivals: no
-                            syn error, no panic)
+                            syn error; since the /repo fix of visitors.rs:401 the parsers never panic and the
+                            hypothesis holds for every workspace: Props/C07.C07_workspace_parse_total)
    multi_crates             collector + reconcile_aliases: the BTreeMap<CrateName, ParsedData> of main.rs
    multi_plan               one (file name, crate, import list, data) per crate: what write_multiple_files generates
    c14_infos uc T ws        (Proofs.C14Main) what the specification is told about each file: its path, its syntax,
